@@ -63,6 +63,10 @@ CLAIMED = {
    "TLA+ model of fsck over the abstract repository (spec/Fsck.tla over Repo; IntactUntouched, MovedNotDeleted checked by TLC); per-edge behaviours ending in an fsck replayed with real git + git-lfs; reported objects / pointers, exit status and the object store before/after compared with the spec",
    "TLC explores every history of <=3 commits (thorough <=4) over canonical pointers, a non-canonical pointer, raw content at a tracked path and deletions, every damage of local objects (deleted, same-size corruption, truncated, extended, replaced by another object), and fsck with no flag / --objects / --pointers / --dry-run on HEAD or HEAD^..HEAD. Replayed runs must report exactly the missing and corrupt objects in scope and exactly as many pointer problems as the spec lists, exit 0 iff both sets are empty, move corrupt objects byte-identically to lfs/bad (unless --dry-run), and leave every other object untouched.",
    "Scope follows git-lfs-fsck(1): the tree of the checked commit (not its history). fetchexclude and index-only entries are not yet modelled; pointer problems are compared by count.", "DESIGN.md §5 C13"),
+ "C04": ("model_checking",
+   "TLA+ model of a second clone (spec/FetchCheckout.tla over Repo; NoClobber checked by TLC); per-edge behaviours ending in git lfs fetch / pull / checkout replayed with real git + git-lfs + fake server; work-tree classes, local store and verdict compared with the spec",
+   "TLC explores published histories of <=3 commits (raw / pointer / deleted blobs), a server that lost objects, smudging and skip-smudge clones, every perturbation of tracked work-tree files (user edit, deletion, replacement by a pointer to another object), objects dropped from the clone's store, and a final fetch, pull or checkout. Replayed runs are judged on: the clone itself materialises content or pointers as specified, paths holding the user's edit / another pointer / ordinary content / already-smudged content are byte-identical afterwards, pointer or deleted files whose object is available end up with exactly the object's bytes, everything in local storage hashes to its name and the objects of the checked-out tree that the server holds are local after fetch/pull.",
+   "fetchinclude/fetchexclude, -I/-X, reference stores, read-only files and git checkout driving the smudge filter are not yet modelled.", "DESIGN.md §5 C04"),
 }
 
 checks = []
